@@ -81,6 +81,33 @@ class Ctx:
             pass
         return r
 
+    def apalache(self, module, init, inv, length, cinit=None, what="", timeout=900):
+        """Apalache (symbolic) check of `inv` from `init` over `length` steps; returns True (holds) / False (violated).
+        Anything else (type error, timeout, missing tool) is machinery."""
+        import shutil
+        import subprocess
+        d = _tlc.scratch_dir("apa")
+        try:
+            shutil.copy(os.path.join(VERIF, "spec", module + ".tla"), d)
+            cmd = ["apalache-mc", "check", "--init=" + init, "--inv=" + inv, "--length=%d" % length, "--out-dir=" + os.path.join(d, "out")]
+            if cinit:
+                cmd.append("--cinit=" + cinit)
+            t0 = time.time()
+            env = dict(os.environ, JVM_ARGS="-Xmx4g -Djava.io.tmpdir=" + d)
+            try:
+                pr = subprocess.run(cmd + [module + ".tla"], cwd=d, capture_output=True, text=True, timeout=timeout, env=env)
+            except subprocess.TimeoutExpired:
+                raise Machinery("apalache timed out on %s (%s)" % (module, what))
+            self.tlc_runs.append({"module": module, "what": "apalache: " + what, "generated": 0, "distinct": 0, "depth": length,
+                                  "wall_s": round(time.time() - t0, 2), "violated": None if pr.returncode == 0 else inv, "coverage": None})
+            if pr.returncode == 0 and "EXITCODE: OK" in pr.stdout:
+                return True
+            if pr.returncode == 12:
+                return False
+            raise Machinery("apalache failed on %s (%s), exit %d:\n%s" % (module, what, pr.returncode, pr.stdout[-1500:] + pr.stderr[-500:]))
+        finally:
+            shutil.rmtree(d, ignore_errors=True)
+
     def validate_trace(self, module, events, what="", consts="", timeout=3600, count=True, init="Init", nxt="Next"):
         """Trace validation (code -> spec): events are dicts with a kind `k`; ids are assigned here.
         Returns {id: [failing clause names]} (without DRIFT) and the list of drifting ids."""
